@@ -115,7 +115,10 @@ func (g *G) genType(c *objCase, o genOpts, depth int) *TD {
 		return g.genStruct(c, o, depth)
 	case pick == 18:
 		if o.transforms {
-			kinds := []int{10, 11, 13, 14, 17, 17, 22}
+			kinds := []int{10, 11, 13, 14, 17, 17, 22, 25}
+			if o.unions {
+				kinds = append(kinds, 23, 23)
+			}
 			if !o.jsonSafe {
 				kinds = append(kinds, 12, 19)
 			}
@@ -142,8 +145,11 @@ func (c *objCase) zooTransform(id int, o genOpts) *TD {
 	if c.hasEntry(t) {
 		return t
 	}
-	kindOf := map[int]int{10: 1, 11: 2, 12: 3, 13: 4, 14: 5, 16: 6, 17: 7, 19: 8, 22: 9}
-	wireOf := map[int]string{10: "s", 11: "s", 12: "x", 13: "(sl i64)", 14: "(st 15)", 16: "s", 17: "(st 18)", 19: "x", 22: "a"}
+	kindOf := map[int]int{10: 1, 11: 2, 12: 3, 13: 4, 14: 5, 16: 6, 17: 7, 19: 8, 22: 9, 23: 9, 24: 5, 25: 5}
+	wireOf := map[int]string{10: "s", 11: "s", 12: "x", 13: "(sl i64)", 14: "(st 15)", 16: "s", 17: "(st 18)", 19: "x", 22: "a", 23: "(if 30)", 24: "(st 15)", 25: "(st 15)"}
+	if id == 23 {
+		c.zooUnion(o) // the serial form's own entry
+	}
 	ad := &AD{t: t, kind: "tr", trk: kindOf[id], wire: c.env.mustParseType(wireOf[id])}
 	c.atl.entries = append(c.atl.entries, ad)
 	if id == 17 { // wire struct with omitempty fields: omitted fields must not leak between sibling values
@@ -152,7 +158,7 @@ func (c *objCase) zooTransform(id int, o genOpts) *TD {
 			c.atl.entries = append(c.atl.entries, &AD{t: w, kind: "smap", flds: []fldD{{name: "k", route: []int{0}, t: w.field[0], omit: true}, {name: "n", route: []int{1}, t: w.field[1], omit: true}}})
 		}
 	}
-	if id == 14 { // the wire struct needs its own struct map
+	if id == 14 || id == 24 || id == 25 { // the wire struct needs its own struct map
 		w := c.env.addZoo(15)
 		if !c.hasEntry(w) {
 			c.atl.entries = append(c.atl.entries, &AD{t: w, kind: "smap", flds: []fldD{{name: "w", route: []int{0}, t: w.field[0]}}})
@@ -178,7 +184,16 @@ func (c *objCase) zooUnion(o genOpts) *TD {
 	square := c.zooStructEntry(21, []string{"s", "n"})
 	t := &TD{k: "if", n: 30, rt: zooByID(30).rt}
 	if !c.hasEntry(t) {
-		c.atl.entries = append(c.atl.entries, &AD{t: t, kind: "un", mem: []memD{{"circle", circle}, {"square", square}}})
+		mem := []memD{{"circle", circle}, {"square", square}}
+		if o.transforms {
+			// a member that is itself a transform (its machine and the union's share a slab row)
+			ad := &AD{t: t, kind: "un"}
+			c.atl.entries = append(c.atl.entries, ad) // registered first: zooTransform may look the union up
+			mem = append(mem, memD{"disc", c.zooTransform(24, o)})
+			ad.mem = mem
+			return t
+		}
+		c.atl.entries = append(c.atl.entries, &AD{t: t, kind: "un", mem: mem})
 	}
 	return t
 }
@@ -490,7 +505,9 @@ func (g *G) genValue(c *objCase, t *TD, o genOpts, depth int) reflect.Value {
 		v.Set(dv)
 	case "if":
 		// union member
-		if g.chance(0.5) {
+		if dt := c.env.mustParseType("(st 24)"); c.hasEntry(dt) && g.chance(0.4) {
+			v.Set(g.genValue(c, dt, o, depth+1))
+		} else if g.chance(0.5) {
 			ct := c.env.addZoo(20)
 			v.Set(g.genValue(c, ct, o, depth+1))
 		} else {
